@@ -69,6 +69,9 @@ func genFamily(r *lib.Rng, o gg.GenOpts, x bool, limit int) []*gg.Case {
 		switch {
 		case total*2 > limit: // the family is full: this branch keeps its generated table in every member
 			if b.Single {
+				if len(b.Table) == 0 { // a multi branch that selects nothing, made single above: a single branch selects one end
+					b.Table = [][]uint64{{b.Ends[0]}}
+				}
 				for ri := range b.Table { // (rows refer to the two remaining ends)
 					if len(b.Table[ri]) != 1 || !hasU(b.Ends, b.Table[ri][0]) {
 						b.Table[ri] = []uint64{b.Ends[0]}
